@@ -828,6 +828,20 @@ def r_find(ck: Checker) -> None:
     what = "a path that does not start with '/' is compiled as '//' + path"
     ok = any(isinstance(st, ast.If) and norm(st.test) == "not xpath.startswith('/')" and len(st.body) == 1 and norm(st.body[0]) == "xpath = '//' + xpath"
              for st in c.node.body)
+    if not ok:
+        # the same choice as a conditional expression: `p = xpath if xpath.startswith('/') else '//' + xpath` (or with the test negated),
+        # and the parser is given `p`
+        tp_ = c.node.args.args[1].arg if len(c.node.args.args) > 1 else "xpath"
+        pre = (f"'//' + {tp_}", f"f'//{{{tp_}}}'", f"'//{{}}'.format({tp_})", f"''.join(('//', {tp_}))")
+        for st in ast.walk(c.raw or c.node):
+            if isinstance(st, ast.Assign) and len(st.targets) == 1 and isinstance(st.targets[0], ast.Name) and isinstance(st.value, ast.IfExp):
+                t_, b_, o_ = norm(st.value.test), norm(st.value.body), norm(st.value.orelse)
+                good = (t_ == f"{tp_}.startswith('/')" and b_ == tp_ and o_ in pre) or (t_ == f"not {tp_}.startswith('/')" and o_ == tp_ and b_ in pre)
+                parsed = any(isinstance(x, ast.Call) and isinstance(x.func, ast.Attribute) and x.func.attr == "parse" and x.args and norm(x.args[0]) == st.targets[0].id
+                             for x in ast.walk(c.raw or c.node)) or any(isinstance(x, ast.Call) and x.args and norm(x.args[0]) == st.targets[0].id and "parse" in (dotted(x.func) or "")
+                                                                      for x in ast.walk(c.raw or c.node))
+                if good and parsed:
+                    ok = True
     if ok:
         ck.holds("R-XP-FIND", c, c.node, what)
     elif not any(isinstance(x, ast.Call) and isinstance(x.func, ast.Attribute) and x.func.attr == "startswith" for x in ast.walk(c.node)) \
